@@ -746,6 +746,174 @@ func checkC19(e *Engine, r *Report) {
 		}
 	}
 
+	// ---- rule 3d: joint keys -------------------------------------------------------------------
+	// For a key that splitKeys resolves to several sub-keys the value is strings.Join(vals, vsep): vsep is the value
+	// separator splitKeys returned, vals collects ResolveRef(subject, sub-key) for every sub-key in order; "found" is
+	// the disjunction of the sub-lookups. For a single key it is that key's own ResolveRef.
+	if kv := r.Anchor(pkgExpr, "KeyValue"); kv != nil && len(kv.Params) == 2 {
+		subjP := ssa.Value(kv.Params[1])
+		var split *ssa.Call
+		AllInstrs(kv, func(in ssa.Instruction) {
+			if c, ok := in.(*ssa.Call); ok && callObj(c.Common()) != nil && callObj(c.Common()).Name() == "splitKeys" {
+				split = c
+			}
+		})
+		var keysV, vsepV ssa.Value
+		if split != nil && split.Referrers() != nil {
+			for _, ref := range *split.Referrers() {
+				if ex, ok := ref.(*ssa.Extract); ok {
+					if ex.Index == 0 {
+						keysV = ex
+					} else {
+						vsepV = ex
+					}
+				}
+			}
+		}
+		if keysV == nil || vsepV == nil {
+			r.Undecided("R6:joint-key-composition", "R6 operator tables", "KeyValue splits the key with splitKeys and uses both results", e.Pos(kv.Pos()), kv, "not found")
+		} else {
+			single := func(val bool) Assumption {
+				return func(cond ssa.Value) (bool, bool) {
+					_, y, op, ok := cmpOriented(cond, func(v ssa.Value) bool {
+						c, ok := v.(*ssa.Call)
+						if !ok {
+							return false
+						}
+						bi, ok := c.Common().Value.(*ssa.Builtin)
+						return ok && bi.Name() == "len" && unspill(c.Common().Args[0]) == keysV
+					})
+					if !ok {
+						return false, false
+					}
+					if k, isK := y.(*ssa.Const); isK {
+						if n, ok := constIntVal(k); ok && n == 1 && (op == token.EQL || op == token.NEQ) {
+							return true, (op == token.EQL) == val
+						}
+					}
+					return false, false
+				}
+			}
+			isResolveOf := func(v ssa.Value, key func(ssa.Value) bool) bool { // Extract #0 of ResolveRef(subject, key)
+				ex, ok := v.(*ssa.Extract)
+				if !ok || ex.Index != 0 {
+					return false
+				}
+				c, ok := ex.Tuple.(*ssa.Call)
+				if !ok || callObj(c.Common()) == nil || callObj(c.Common()).Name() != "ResolveRef" {
+					return false
+				}
+				a := callArgs(c)
+				return len(a) == 2 && sameObject(a[0], subjP) && key(a[1])
+			}
+			isKeyElem := func(v ssa.Value) bool {
+				u, ok := unspill(v).(*ssa.UnOp)
+				if !ok || u.Op != token.MUL {
+					return false
+				}
+				ia, ok := u.X.(*ssa.IndexAddr)
+				return ok && unspill(ia.X) == keysV
+			}
+			okJ, whyJ := true, ""
+			for _, ret := range Returns(kv) {
+				// joint
+				OriginsUnder(kv, ret.Results[0], single(false), func(v ssa.Value) bool {
+					switch x := v.(type) {
+					case *ssa.Phi:
+						return false
+					case *ssa.Call:
+						if f := x.Common().StaticCallee(); f != nil && f.String() == "strings.Join" {
+							a := x.Common().Args
+							if unspill(a[1]) != vsepV {
+								okJ, whyJ = false, "joined with something else than the value separator"
+							}
+							// elements appended
+							nEl := 0
+							seen := map[ssa.Value]bool{}
+							var walk func(sv ssa.Value, d int)
+							walk = func(sv ssa.Value, d int) {
+								if seen[sv] || d > 12 {
+									return
+								}
+								seen[sv] = true
+								switch y := sv.(type) {
+								case *ssa.Phi:
+									for _, ed := range y.Edges {
+										walk(ed, d+1)
+									}
+								case *ssa.MakeSlice:
+								case *ssa.Call:
+									if bi, ok := y.Common().Value.(*ssa.Builtin); ok && bi.Name() == "append" {
+										walk(y.Common().Args[0], d+1)
+										for _, el := range sliceLiteralElems(y.Common().Args[1]) {
+											nEl++
+											if !isResolveOf(el, isKeyElem) {
+												okJ, whyJ = false, "a joined element is not the value of one of the sub-keys"
+											}
+										}
+										return
+									}
+									okJ, whyJ = false, "joined slice of unknown origin"
+								default:
+									okJ, whyJ = false, "joined slice of unknown origin"
+								}
+							}
+							walk(a[0], 0)
+							if nEl == 0 {
+								okJ, whyJ = false, "nothing is collected for the sub-keys"
+							}
+							return true
+						}
+					}
+					okJ, whyJ = false, "the joint value is not strings.Join(values of the sub-keys, separator): "+v.String()
+					return true
+				})
+				// single
+				OriginsUnder(kv, ret.Results[0], single(true), func(v ssa.Value) bool {
+					if _, isPhi := v.(*ssa.Phi); isPhi {
+						return false
+					}
+					if !isResolveOf(v, isKeyElem) {
+						okJ, whyJ = false, "the value of a single key is not its own ResolveRef: "+v.String()
+					}
+					return true
+				})
+			}
+			// every sub-key contributes: the loop over the keys appends in every iteration
+			nLoops := 0
+			for _, lp := range sliceLoops(kv) {
+				lp := lp
+				if unspill(rangedSlice(lp)) != keysV {
+					continue
+				}
+				nLoops++
+				appends := func(in ssa.Instruction) bool {
+					c, ok := in.(*ssa.Call)
+					if !ok {
+						return false
+					}
+					bi, ok := c.Common().Value.(*ssa.Builtin)
+					if !ok || bi.Name() != "append" {
+						return false
+					}
+					for _, el := range sliceLiteralElems(c.Common().Args[1]) {
+						if isResolveOf(el, lp.elem) {
+							return true
+						}
+					}
+					return false
+				}
+				if p := lp.skips(nil, appends, true); p != nil {
+					okJ, whyJ = false, "a sub-key can be skipped: "+e.pathString(p)
+				}
+			}
+			if nLoops == 0 {
+				okJ, whyJ = false, "no loop over the sub-keys"
+			}
+			r.Check("R6:joint-key-composition", "R6 operator tables", "a joint key evaluates to the values of all its sub-keys, in order, joined by the value separator; a single key to its own value", e.Pos(kv.Pos()), kv, okJ, whyJ, true)
+		}
+	}
+
 	// ---- rule 4: weight clamp ------------------------------------------------------------
 	if av := r.Anchor(pkgCA, "Affinity.Validate"); av != nil {
 		fW := e.Field(pkgCA, "Affinity", "Weight")
